@@ -1084,7 +1084,7 @@ def m_path_exists(I, a, t, c):
 
 # ---------------------------------------------------------------------------------------------------- seq_io FASTA reader over the virtual sequence files
 #      (`ska lo -r`: skalo::positioning::get_reader opens the file - part of the environment - and seq_io parses it)
-@add('skalo::positioning::get_reader')
+@add('skalo::positioning::get_reader', 'skalo::utils::get_reader', 'skalo::input::get_reader')
 def m_skalo_get_reader(I, a, t, c):
     p = ''.join(ch if isinstance(ch, str) else chr(I.conc(ch)) for ch in deref_all(I, a[0]).chars)
     if p not in getattr(I, 'files', {}):
@@ -1095,6 +1095,10 @@ def m_skalo_get_reader(I, a, t, c):
 @add('seq_io::fasta::Reader::new', 'seq_io::fasta::Reader::from_path')
 def m_seqio_reader_new(I, a, t, c):
     src = a[0]
+    hops = 0
+    while isinstance(src, Agg) and src.kind in ('box', 'bufwriter', 'bufreader') and src.fields and hops < 4:      # Box<dyn BufRead> / BufReader around the handle
+        src = src.fields[0]
+        hops += 1
     if isinstance(src, Agg) and src.kind == 'seqio-src':
         path = src.fields[0]
     else:
